@@ -128,3 +128,39 @@ def quantity_text(value, entries):
     if s is None: return None
     v = rt.frac_str(value)
     return f'{v} {s}' if s else v
+
+# ---- the code's own declared per-unit scale (read from the evaluated statics), used by C03/C04/C13 ----
+def declared_scale(I, name):
+    """(kind, Fraction scale, Fraction offset) from DerivedVtable.conversion of the static; base units: ('none', 1, 0).
+    Methods conversions are probed by running the closures on a symbolic x (they must be affine: a*x + b)."""
+    if name in rt.BASE_UNITS: return ('none', Fraction(1), Fraction(0))
+    key = ('scale', name, id(I.bodies))
+    if key in _scale_cache: return _scale_cache[key]
+    vt = rt.vtable_of(I, name)
+    conv = vt.items[2]
+    if conv.variant == 'None': out = ('none', Fraction(1), Fraction(0))
+    else:
+        c = conv.items[0]
+        if c.variant == 'Factor':
+            fr = c.items[0]; out = ('factor', Fraction(fr.items[0].v, fr.items[1].v), Fraction(0))
+        elif c.variant == 'Offset':
+            fr = c.items[0]; out = ('offset', Fraction(1), Fraction(fr.items[0].v, fr.items[1].v))
+        else:
+            out = ('methods', None, None)
+    _scale_cache[key] = out
+    return out
+_scale_cache = {}
+
+def F_of(I, entries, scale=None):
+    """SI value of 1 <compound> as a product over entries, (10^f * s_u)^p; concretises a symbolic power/prefix only
+    for entries whose factor is not 1.  scale(name) -> Fraction (default: the code's declared scale)."""
+    total = Fraction(1)
+    for u, p, f in entries:
+        s = scale(u) if scale else declared_scale(I, u)[1]
+        if s is None: raise Unsupported('no multiplicative scale for ' + u)
+        if s != 1:
+            pc = I.concretize(p, what='unit power'); total *= Fraction(s) ** pc
+        if not (is_conc(f) and f == 0):
+            e = I.concretize(f * p, limit=200, what='prefix*power')
+            total *= Fraction(10) ** e
+    return total
